@@ -84,8 +84,13 @@ func (c *Ctx) constant(name string, s Sort) *Term {
 	return Atom(name, s)
 }
 
+var predeclared = map[string]bool{"strlen": true, "strcat": true, "strlt": true, "eqfold": true, "typeof": true, "slot": true}
+
 func (c *Ctx) declFun(name string, args []Sort, res Sort) string {
 	name = q(name)
+	if predeclared[name] {
+		return name
+	}
 	if _, ok := c.funs[name]; !ok {
 		var as []string
 		for _, a := range args {
@@ -127,6 +132,16 @@ func (c *Ctx) assumeOnce(key string, t *Term) {
 // name introduces a fresh constant for a large term.
 func (c *Ctx) name(prefix string, t *Term) *Term {
 	if t.size <= 12 {
+		return t
+	}
+	n := c.fresh(prefix, t.S)
+	c.cmds = append(c.cmds, "(assert (= "+n.Op+" "+t.String()+"))")
+	return n
+}
+
+// define always introduces a constant equal to t (unless t is already an atom).
+func (c *Ctx) define(prefix string, t *Term) *Term {
+	if t.IsAtom() {
 		return t
 	}
 	n := c.fresh(prefix, t.S)
